@@ -576,6 +576,111 @@ def _as_load(e: ast.expr) -> ast.expr:
 
 
 # ---------------------------------------------------------------------------
+# records:  m = MonthSummary(peak=self.peaks[i], day=self.days[i]) ; ... m.peak ...   is read as   self.peaks[i]
+# ---------------------------------------------------------------------------
+def propagate_record_fields(trees: Dict[str, ast.Module]) -> int:
+    """a local bound once to the construction of a plain record class of the package (a NamedTuple or dataclass: nothing but
+    annotated fields, no __init__ / __post_init__ / properties), whose field values are names, constants, attribute chains or
+    subscripts of those, and which is afterwards only READ through its fields, stands for those values - as long as nothing in
+    the statements that follow (same block and below) re-assigns a name the values mention, stores into or mutates in place a
+    container they read, or calls a method on `self`.  `m.field` is replaced by the field's value.  Returns the number of
+    records resolved."""
+    records: Dict[str, List[str]] = {}
+    for t in trees.values():
+        for c in [b for b in t.body if isinstance(b, ast.ClassDef)]:
+            bases = {_chain_text(b_) or "" for b_ in c.bases}
+            decos = {(_chain_text(d.func) if isinstance(d, ast.Call) else _chain_text(d)) or "" for d in c.decorator_list}
+            if not ({"NamedTuple", "typing.NamedTuple"} & bases or {"dataclass", "dataclasses.dataclass"} & decos):
+                continue
+            body = [b_ for b_ in c.body if not (isinstance(b_, ast.Expr) and isinstance(b_.value, ast.Constant))]
+            if body and all(isinstance(b_, ast.AnnAssign) and isinstance(b_.target, ast.Name) for b_ in body):
+                records[c.name] = [b_.target.id for b_ in body]
+    if not records:
+        return 0
+    done = 0
+    touched = set()
+
+    def pure(e):
+        return all(isinstance(x, (ast.Name, ast.Constant, ast.Attribute, ast.Subscript, ast.expr_context)) for x in ast.walk(e))
+
+    for mod, t in trees.items():
+        for fn in [x for x in ast.walk(t) if isinstance(x, ast.FunctionDef)]:
+            stores: Dict[str, int] = {}
+            for x in ast.walk(fn):
+                if isinstance(x, ast.Name) and isinstance(x.ctx, (ast.Store, ast.Del)):
+                    stores[x.id] = stores.get(x.id, 0) + 1
+            blocks = []
+            for x in ast.walk(fn):
+                for fld in ("body", "orelse", "finalbody"):
+                    b = getattr(x, fld, None)
+                    if isinstance(b, list) and b and isinstance(b[0], ast.stmt):
+                        blocks.append(b)
+            for block in blocks:
+                for i, s_ in enumerate(list(block)):
+                    if not (isinstance(s_, ast.Assign) and len(s_.targets) == 1 and isinstance(s_.targets[0], ast.Name) and isinstance(s_.value, ast.Call)
+                            and isinstance(s_.value.func, ast.Name) and s_.value.func.id in records and stores.get(s_.targets[0].id) == 1):
+                        continue
+                    name, call = s_.targets[0].id, s_.value
+                    fields = records[call.func.id]
+                    if any(isinstance(a, ast.Starred) for a in call.args) or any(k.arg is None for k in call.keywords) or len(call.args) > len(fields):
+                        continue
+                    vals = dict(zip(fields, call.args))
+                    vals.update({k.arg: k.value for k in call.keywords})
+                    if set(vals) != set(fields) or not all(pure(v) for v in vals.values()):
+                        continue
+                    region = block[i + 1:]
+                    uses = [x for x in ast.walk(fn) if isinstance(x, ast.Name) and x.id == name and isinstance(x.ctx, ast.Load)]
+                    in_region = {id(x) for st_ in region for x in ast.walk(st_)}
+                    attr_uses = [x for st_ in region for x in ast.walk(st_) if isinstance(x, ast.Attribute) and isinstance(x.value, ast.Name) and x.value.id == name and x.attr in fields and isinstance(x.ctx, ast.Load)]
+                    if not uses or any(id(u) not in in_region for u in uses) or len(attr_uses) != len(uses):
+                        continue
+                    read_names = {x.id for v in vals.values() for x in ast.walk(v) if isinstance(x, ast.Name)}
+                    read_chains = {_chain_text(x) for v in vals.values() for x in ast.walk(v) if isinstance(x, ast.Attribute) and _chain_text(x)}
+                    # an enclosing loop repeats the region's statements BEFORE the binding too: they count as well
+                    scope = list(region)
+                    for lp in ast.walk(fn):
+                        if isinstance(lp, (ast.For, ast.While)) and any(s_ is y for y in ast.walk(lp)):
+                            scope = list(lp.body) + list(lp.orelse)
+                    bad = False
+                    for st_ in scope:
+                        for x in ast.walk(st_):
+                            if isinstance(x, ast.Name) and isinstance(x.ctx, (ast.Store, ast.Del)) and x.id in read_names:
+                                bad = True
+                            if isinstance(x, (ast.Attribute, ast.Subscript)) and isinstance(x.ctx, (ast.Store, ast.Del)):
+                                base = x.value if isinstance(x, ast.Subscript) else x
+                                c = _chain_text(base)
+                                if c and any(rc == c or rc.startswith(c + ".") or c.startswith(rc + ".") for rc in read_chains):
+                                    bad = True
+                            if isinstance(x, ast.Call) and isinstance(x.func, ast.Attribute):
+                                oc = _chain_text(x.func.value)
+                                if oc in read_chains and x.func.attr in ("append", "extend", "insert", "pop", "remove", "clear", "sort", "reverse", "update"):
+                                    bad = True
+                                if oc == "self" and "self" in read_names:
+                                    bad = True
+                    if bad:
+                        continue
+
+                    class R(ast.NodeTransformer):
+                        def visit_Attribute(self, n):
+                            if isinstance(n.value, ast.Name) and n.value.id == name and n.attr in vals and isinstance(n.ctx, ast.Load):
+                                return ast.copy_location(copy.deepcopy(vals[n.attr]), n)
+                            return self.generic_visit(n)
+
+                    for st_ in region:
+                        block[block.index(st_)] = R().visit(st_)
+                    block.remove(s_)
+                    for x in ast.walk(fn):
+                        ast.fix_missing_locations(x) if isinstance(x, ast.stmt) else None
+                    done += 1
+                    touched.add(mod)
+    if done:
+        # a record class nothing constructs any more is dead code for the analysis
+        for mod in touched:
+            renumber(trees[mod])
+    return done
+
+
+# ---------------------------------------------------------------------------
 # attribute aliases:  bhe = self.ghe.bhe ; ... bhe.b.H ...   is read as   self.ghe.bhe.b.H
 # ---------------------------------------------------------------------------
 def _chain_text(node) -> Optional[str]:
